@@ -145,6 +145,17 @@ class SX:
             if name == 'str':
                 return SX.b_str(args[0].s)
             return sx_add(sx_add('PosixPath(', SX.b_repr(SymStr(args[0].s.t, args[0].s.segs))), ')')
+        if name in ('hasattr', 'getattr') and len(args) >= 2 and isinstance(args[1], Sym) and getattr(builtins, name) is fn:
+            # attribute looked up by a symbolic NAME: linear search over the object's public attributes
+            obj, nm = args[0], args[1]
+            for cand in [a for a in dir(obj) if not a.startswith('__')]:
+                if bool(nm == cand):
+                    return True if name == 'hasattr' else builtins.getattr(obj, cand)
+            if name == 'hasattr':
+                return False
+            if len(args) > 2:
+                return args[2]
+            raise AttributeError('symbolic attribute name')
         if args and getattr(builtins, name, None) is fn:
             a0 = args[0]
             if name == 'str' and type(a0).__name__ == 'MPath':
@@ -565,7 +576,7 @@ class SymSet:
 
 
 STR_METHODS = {'to_pickle', '__new__', 'subn', 'sub', 'match', 'fullmatch', 'join', 'startswith', 'endswith', 'replace', 'format'}
-BUILTINS = {'Path', 'type', 'len', 'repr', 'str', 'hasattr', 'hash', 'int', 'format', 'sorted', 'list', 'bool', 'print'}
+BUILTINS = {'getattr', 'Path', 'type', 'len', 'repr', 'str', 'hasattr', 'hash', 'int', 'format', 'sorted', 'list', 'bool', 'print'}
 
 
 def _sx(attr):
